@@ -334,6 +334,10 @@ def run(ctx):
                 continue
             q = m.qualname_of(x)
             n += 1
+            if isinstance(par, ast.Call) and any(a is x for a in par.args) and isinstance(par.func, ast.Name) and par.func.id in ("learned_parameters", "learned_params"):
+                # by structure, wherever it is spelled: the geometry is an argument of the caller's own parameter callable (user code decides what it does with it)
+                ctx.ok("R2", f"{m.rel}:{x.lineno} {q}", "coordinates handed to the user's parameter callable (user code)", nontrivial=False)
+                continue
             key = (m.rel, q) if (m.rel, q) in COORD_OK else (m.rel, "*")
             ok = key in COORD_OK
             reason = COORD_OK.get(key, "")
